@@ -12,7 +12,9 @@ RULE = (
     "Hypothesis-generated histories of 2-6 call sites over a module-level library of building blocks (flax.nnx module, equinox module with a "
     "static field, plain Python class with numpy state and a string mode, free functions with keyword arguments, a two-input function, a function "
     "calling a function), each in plain / @onnx_function / @onnx_function(unique=True) twins, with generated weights (equal/different seeds), static "
-    "configuration, keyword arguments, input shapes (full / sliced) and static vs symbolic batch. Oracles: (1) ORT(decorated) == ORT(plain twin) "
+    "configuration, keyword arguments, input shapes (full / sliced) and static vs symbolic batch; plus call sites whose positional argument is a "
+    "constant of the caller's graph (closed-over vector / scalar differing between sites), a positional Python literal divisor, and a function with "
+    "two call-time flags (to_onnx input_params) whose keyword arguments are spelled in either order, run for all four runtime flag values. Oracles: (1) ORT(decorated) == ORT(plain twin) "
     "== eager JAX; (2) two call nodes reference one (domain,name) definition only if their call sites are in the same semantic class (same block "
     "type, weights, static config, kwargs, input shape); (3) call arity == definition arity, every definition referenced. non-trivial = history "
     "with two sites of one block type differing in exactly one distinguishing field, or containing a nested function; distinct by history digest."
@@ -26,6 +28,10 @@ ASSUMPTIONS = [
 
 def site_class(s):
     """Everything that distinguishes what a call site computes (its input shape included)."""
+    if s[0] in ("gc", "p", "gate"):
+        # the constant / literal / flags are *arguments*: one definition may serve every site as long as each call node passes its own
+        # values (the numeric oracle decides); gc with the scalar constants has another operand shape than with the vectors
+        return (s[0], "scalar" if s[0] == "gc" and s[1] >= 2 else "")
     if s[0] == "g":
         return ("g", s[2] if len(s) > 2 else "full")  # the factor is applied outside the function body
     return tuple(s)
@@ -35,7 +41,15 @@ def history_strategy():
     from hypothesis import strategies as st
     from vf import blocks
 
-    base = blocks.site_strategy()
+    # besides the shared library: a two-input function whose second positional argument is a *constant of the caller's graph*
+    # (closed-over array / scalar, differing between sites), a function dividing by a positional Python literal, and a function
+    # with two call-time (runtime) flags whose keyword arguments are spelled in either order
+    extra = st.one_of(
+        st.tuples(st.just("gc"), st.integers(0, 3)).map(list),
+        st.tuples(st.just("p"), st.sampled_from([2.0, 4.0, 0.5])).map(list),
+        st.tuples(st.just("gate"), st.sampled_from(["ds", "sd"])).map(list),
+    )
+    base = st.one_of(blocks.site_strategy(), blocks.site_strategy(), extra)
     shaped = st.tuples(base, st.sampled_from(["full", "full", "half"])).map(lambda t: t[0] + [t[1]] if t[0][0] in ("fn", "g") else t[0])
 
     @st.composite
@@ -55,6 +69,12 @@ def history_strategy():
             elif src[0] == "cls":
                 f = draw(st.integers(1, 2))
                 alt[f] = {1: 1 - src[1], 2: "mul" if src[2] == "add" else "add"}[f]
+            elif src[0] == "gc":
+                alt[1] = (src[1] + draw(st.integers(1, 3))) % 4
+            elif src[0] == "p":
+                alt[1] = {2.0: 4.0, 4.0: 0.5, 0.5: 2.0}[src[1]]
+            elif src[0] == "gate":
+                alt[1] = "sd" if src[1] == "ds" else "ds"
             elif src[0] == "fn":
                 alt[1] = {-1.0: -2.0, -2.0: -1.0}.get(src[1], -src[1]) if draw(st.booleans()) else src[1]
                 if len(alt) > 2 and alt[1] == src[1]:
@@ -71,11 +91,19 @@ def build(history, variant):
 
     insts = blocks.instances(history, variant)
 
-    def fn(x):
+    def fn(x, double=True, shift=False):
         acc = x
         for s, inst in zip(history, insts):
             half = len(s) > 2 and s[-1] == "half" and s[0] in ("fn", "g")
-            if s[0] == "nnx":
+            if s[0] == "gc":
+                g = {"plain": blocks.g_plain, "fn": blocks.g_fn, "uniq": blocks.g_uniq}[variant]
+                acc = g(acc, jnp.asarray(blocks.CONSTS[s[1]]))
+            elif s[0] == "p":
+                acc = {"plain": blocks.p_plain, "fn": blocks.p_fn, "uniq": blocks.p_uniq}[variant](acc, s[1])
+            elif s[0] == "gate":
+                gt = {"plain": blocks.gate_plain, "fn": blocks.gate_fn, "uniq": blocks.gate_uniq}[variant]
+                acc = gt(acc * 0.5, double=double, shift=shift) if s[1] == "ds" else gt(acc * 0.5, shift=shift, double=double)
+            elif s[0] == "nnx":
                 acc = acc + inst(acc, gain=s[4])
             elif s[0] == "eqx":
                 acc = acc * 0.5 + inst(acc)
@@ -106,16 +134,20 @@ def check_history(history, variant, sym, acc=None):
     x = np.random.RandomState(1).randn(5 if sym else 3, 4).astype(np.float32)
     fp = build(history, "plain")
     fd = build(history, variant)
+    gated = any(s[0] == "gate" for s in history)
+    kw = {"input_params": {"double": True, "shift": False}} if gated else {}
+    flagsets = [(d_, s_) for d_ in (True, False) for s_ in (True, False)] if gated else [(True, False)]
     try:
-        exp = np.asarray(fp(jnp.asarray(x)))
-        mp = jaxutil.to_onnx(fp, spec)
+        exps = [np.asarray(fp(jnp.asarray(x), double=d_, shift=s_)) for d_, s_ in flagsets]
+        exp = exps[0]
+        mp = jaxutil.to_onnx(fp, spec, **kw)
     except Exception as e:
         if acc:
             acc.tally("status", "plain_rejected")
             acc.case()
         return out
     try:
-        md = jaxutil.to_onnx(fd, spec)
+        md = jaxutil.to_onnx(fd, spec, **kw)
     except Exception as e:
         if acc:
             acc.tally("status", "decorated_rejected")
@@ -123,21 +155,41 @@ def check_history(history, variant, sym, acc=None):
             acc.case()
         return out
 
+    baked = {"double": True, "shift": False}
+
     def run(m):
+        # input_params only become graph inputs where a call-time parameter of a function (or a plugin) references them; elsewhere the
+        # given value is baked into the model, and only flag sets that agree with the baked value are comparable
         s = onnxutil.session(m)
-        return s.run(None, {s.get_inputs()[0].name: x})[0]
+        names = {i.name for i in s.get_inputs()}
+        res = {}
+        for d_, s_ in flagsets:
+            if ("double" not in names and d_ != baked["double"]) or ("shift" not in names and s_ != baked["shift"]):
+                continue
+            fd_ = {i.name: (np.asarray(d_) if i.name == "double" else np.asarray(s_) if i.name == "shift" else x) for i in s.get_inputs()}
+            res[(d_, s_)] = s.run(None, fd_)[0]
+        return res
 
     types = sorted({s[0] for s in history})
     try:
-        gp, gd = run(mp), run(md)
+        gps, gds = run(mp), run(md)
     except Exception as e:
         out.append({"sig": {"kind": "ort_error", "variant": variant}, "case": case, "detail": str(e)[:300]})
         return out
-    tol = dict(rtol=2e-4, atol=2e-5 * max(1, float(np.abs(exp).max())))
-    fin = np.isfinite(exp)
-    if fin.any() and not (np.allclose(gd[fin], gp[fin], **tol) and np.allclose(gd[fin], exp[fin], **tol)):
-        out.append({"sig": {"kind": "numeric", "variant": variant, "block_types": types}, "case": case,
-                    "detail": f"decorated vs plain max diff {np.nanmax(np.abs(gd - gp)):.3g}, vs jax {np.nanmax(np.abs(gd - exp)):.3g}"})
+    if acc and gated:
+        acc.tally("runtime_flag_sets_compared", str(len(gds)))
+    for (d_, s_), exp in zip(flagsets, exps):
+        if (d_, s_) not in gds:
+            continue
+        gd = gds[(d_, s_)]
+        gp = gps.get((d_, s_), gd)
+        tol = dict(rtol=2e-4, atol=2e-5 * max(1, float(np.abs(exp).max())))
+        fin = np.isfinite(exp)
+        if fin.any() and not (np.allclose(gd[fin], gp[fin], **tol) and np.allclose(gd[fin], exp[fin], **tol)):
+            out.append({"sig": {"kind": "numeric", "variant": variant, "block_types": types}, "case": case,
+                        "detail": f"decorated vs plain max diff {np.nanmax(np.abs(gd - gp)):.3g}, vs jax {np.nanmax(np.abs(gd - exp)):.3g}"
+                                  + (f" at runtime flags double={d_} shift={s_}" if gated else "")})
+            break
     # arity + referenced + scope rules (independent walker)
     for p in scopewalk.walk(md):
         if "call" in p or "function" in p:
